@@ -28,8 +28,7 @@ from vlib.core import enc_csr, enc_list, enc_rat, ToolFailure, VERIF
 RULE = ('all undirected simple graphs n<=5 (thorough: n<=6) x {count_triangles seq/parallel, clustering coefficient, '
         'core decomposition, count_cliques for every k in 2..n+1 and the refused k<2}; structured and random graphs '
         '6<=n<=40 (onion/core-structured, preferential attachment, dense blocks, multipartite, relabelled copies, '
-        'unsorted indices, integer weights, bool/int dtypes, directed and self-loop inputs for the functions that '
-        'symmetrise); thread sweep OMP_NUM_THREADS in {1,2,3,5,8,16} in sub-processes. A case is non-trivial when the '
+        'unsorted indices, integer weights, bool/int dtypes); thread sweep OMP_NUM_THREADS in {1,2,3,5,8,16} in sub-processes. A case is non-trivial when the '
         'graph has at least one edge (triangles/cliques: at least one path of length two); distinct = distinct '
         '(function, graph, arguments)')
 ASSUMPTIONS = ['scipy csr construction / + / .T / astype / tocoo / tocsr are the substrate (the DAG handed to the kernels '
@@ -97,6 +96,106 @@ def _has_wedge(s):
 
 
 # ---------------------------------------------------------------------------------------------
+# crash isolation: the implementation is called in a forked child; a child killed by a signal (segfault, abort
+# of the allocator after a heap overflow ...) is a failing input (the one in progress), not a tool failure
+# ---------------------------------------------------------------------------------------------
+_PROGRESS_FILE = None
+
+
+def _progress(desc):
+    if _PROGRESS_FILE is not None:
+        with open(_PROGRESS_FILE, 'w') as fh:
+            json.dump(desc, fh)
+
+
+class StreamList(list):
+    """A list of cases whose `+=` also streams the chunk to the parent (so that the cases evaluated before a crash
+    of the implementation are not lost)."""
+
+    def __iadd__(self, other):
+        other = list(other)
+        if _STREAM is not None and other:
+            import pickle
+            pickle.dump([_raw(c) for c in other], _STREAM)
+            _STREAM.flush()
+        list.extend(self, other)
+        return self
+
+
+_STREAM = None
+
+
+def _raw(c):
+    return (c.key, c.sig, c.run, c.impl, c.spec, c.nontrivial, c.desc, c.canon, c.tol)
+
+
+def in_child(ctx, fn):
+    """Run fn() (which accumulates its cases in a StreamList) in a forked child. Returns (cases, crash) where
+    crash is None or {'signal': n, 'case': <description of the input in progress>}; the cases built before a
+    crash are returned as well."""
+    global _PROGRESS_FILE, _STREAM
+    import pickle
+    import tempfile
+    d = os.path.join(VERIF, '.cache', 'c11_tmp')
+    os.makedirs(d, exist_ok=True)
+    fd, out = tempfile.mkstemp(dir=d, suffix='.pkl')
+    os.close(fd)
+    prog = out + '.progress'
+    sys.stdout.flush()
+    sys.stderr.flush()
+    pid = os.fork()
+    if pid == 0:
+        code = 0
+        try:
+            _PROGRESS_FILE = prog
+            _STREAM = open(out, 'wb')
+            res = fn()
+            if not isinstance(res, StreamList):
+                pickle.dump([_raw(c) for c in res], _STREAM)
+            pickle.dump({'dist': ctx.dist}, _STREAM)
+            _STREAM.close()
+        except BaseException:
+            import traceback
+            with open(out + '.err', 'w') as fh:
+                fh.write(traceback.format_exc())
+            code = 3
+        finally:
+            os._exit(code)
+    _, status = os.waitpid(pid, 0)
+    try:
+        if not os.WIFSIGNALED(status) and os.WEXITSTATUS(status) != 0:
+            err = open(out + '.err').read() if os.path.exists(out + '.err') else 'exit %d' % os.WEXITSTATUS(status)
+            raise ToolFailure('case builder failed in the child process:\n' + err[-3000:])
+        cases = []
+        with open(out, 'rb') as fh:
+            while True:
+                try:
+                    chunk = pickle.load(fh)
+                except (EOFError, pickle.UnpicklingError):
+                    break
+                if isinstance(chunk, dict):
+                    for k, v in chunk['dist'].items():
+                        ctx.dist[k] = v
+                else:
+                    cases += [Case(*r) for r in chunk]
+        crash = None
+        if os.WIFSIGNALED(status):
+            case = json.load(open(prog)) if os.path.exists(prog) else {}
+            crash = {'signal': os.WTERMSIG(status), 'case': case}
+        return cases, crash
+    finally:
+        for f in (out, prog, out + '.err'):
+            if os.path.exists(f):
+                os.remove(f)
+
+
+def report_crash(ctx, crash):
+    case = crash['case'] or {'f': 'unknown'}
+    ctx.spec_fail({'entry': 'crash', 'signal': crash['signal']}, case,
+                  {'what': 'the implementation was killed by signal %d while processing this input' % crash['signal']})
+
+
+# ---------------------------------------------------------------------------------------------
 # cases of one graph
 # ---------------------------------------------------------------------------------------------
 def cases_for_graph(ctx, a, rng, name='', simple=True, ks=None, funcs=('tri', 'cc', 'core', 'cliques', 'dag')):
@@ -112,6 +211,7 @@ def cases_for_graph(ctx, a, rng, name='', simple=True, ks=None, funcs=('tri', 'c
     s = _sym_pattern(a)
     sp = _pat(s)
     gd = _gdesc(a)
+    _progress({'f': 'all', 'graph': gd, 'name': name, 'funcs': list(funcs), 'ks': None if ks is None else list(ks)})
     out = []
     nontriv = s.nnz > 0
     wedge = _has_wedge(s)
@@ -324,7 +424,7 @@ def variants(ctx, a, rng):
 def build_cases(ctx):
     rng = ctx.rng
     quick = ctx.quick
-    cases = []
+    cases = StreamList()
     # 1. exhaustive: all undirected simple graphs
     nmax = 5 if quick else 6
     for n in range(0, nmax + 1):
@@ -360,15 +460,6 @@ def build_cases(ctx):
         cases += cases_for_graph(ctx, a, rng, name, True, [2, 3, 4, rng.choice([5, 6])],
                                  ('tri', 'cc', 'core', 'cliques'))
         ctx.count('large:' + name.rstrip('0123456789'))
-    # 3. inputs outside "undirected simple": directed and self-loops (the functions symmetrise / drop the loops)
-    for _ in range(15 if quick else 120):
-        n = rng.randint(3, 9)
-        es = graphs.random_edges(rng, n, rng.choice([0.2, 0.4, 0.7]), directed=True, loops=False)
-        cases += cases_for_graph(ctx, _mk(n, es), rng, 'directed%d' % n, False, None, ('tri',))
-        ctx.count('degenerate:directed')
-        es = graphs.random_edges(rng, n, rng.choice([0.3, 0.6]), directed=False, loops=True)
-        cases += cases_for_graph(ctx, _mk(n, es), rng, 'selfloops%d' % n, False, [2, 3, 4], ('tri', 'cliques'))
-        ctx.count('degenerate:selfloops')
     return cases
 
 
@@ -385,7 +476,8 @@ assert sknetwork.__file__.startswith(sys.argv[1]), sknetwork.__file__
 from sknetwork.topology import count_triangles, get_clustering_coefficient
 warnings.simplefilter('ignore')
 out = []
-for gd in json.load(sys.stdin):
+for idx, gd in enumerate(json.load(sys.stdin)):
+    sys.stderr.write('#%d\n' % idx); sys.stderr.flush()
     a = sparse.csr_matrix((np.array(gd['data'], dtype=float), np.array(gd['indices'], dtype=np.int32),
                            np.array(gd['indptr'], dtype=np.int32)), shape=tuple(gd['shape']))
     r = []
@@ -419,6 +511,13 @@ def thread_sweep(ctx, named_graphs, reps=2):
         env['OMP_WAIT_POLICY'] = 'passive'   # 16 spinning threads on a busy machine take 30 s instead of 1 s
         r = subprocess.run(['/venv/bin/python', '-c', _WORKER, ctx.overlay_root], input=payload, env=env,
                            stdout=subprocess.PIPE, stderr=subprocess.PIPE, text=True, timeout=600)
+        if r.returncode < 0:
+            marks = [ln for ln in r.stderr.split('\n') if ln.startswith('#')]
+            i = int(marks[-1][1:]) if marks else 0
+            ctx.spec_fail({'entry': 'crash', 'signal': -r.returncode, 'parallelize': True},
+                          {'f': 'sweep', 'graph': descs[i], 'threads': t, 'name': named_graphs[i][0]},
+                          {'what': 'worker killed by signal %d with OMP_NUM_THREADS=%d' % (-r.returncode, t)})
+            continue
         if r.returncode != 0:
             raise ToolFailure('thread-sweep worker failed (OMP_NUM_THREADS=%d): %s' % (t, r.stderr[-1500:]))
         res = json.loads(r.stdout)
@@ -508,16 +607,27 @@ def _cases_of_desc(ctx, case):
     simple = abs(a - a.T).nnz == 0 and a.diagonal().sum() == 0 and (a.data > 0).all()
     if f == 'count_cliques':
         return cases_for_graph(ctx, a, ctx.rng, case.get('name', 'replay'), simple, [case['k']], ('cliques', 'dag', 'core'))
+    if f == 'all':
+        return cases_for_graph(ctx, a, ctx.rng, case.get('name', 'replay'), simple, case.get('ks'),
+                               tuple(case.get('funcs') or ('tri', 'cc', 'core', 'cliques', 'dag')))
     fm = {'count_triangles': ('tri', 'dag'), 'get_clustering_coefficient': ('cc', 'tri'),
           'get_core_decomposition': ('core',), 'get_dag': ('dag',)}
     return cases_for_graph(ctx, a, ctx.rng, case.get('name', 'replay'), simple, None,
                            fm.get(f, ('tri', 'cc', 'core', 'cliques', 'dag')))
 
 
+def _build_all(ctx):
+    cases = StreamList()
+    cases += _corpus_cases(ctx)
+    list.extend(cases, build_cases(ctx))     # already streamed chunk by chunk
+    return cases
+
+
 def run(ctx):
     check_prange(ctx)
-    cases = _corpus_cases(ctx)
-    cases += build_cases(ctx)
+    cases, crash = in_child(ctx, lambda: _build_all(ctx))
+    if crash:
+        report_crash(ctx, crash)
     evaluate(ctx, cases)
     thread_sweep(ctx, sweep_graphs(ctx, ctx.rng), reps=2 if ctx.quick else 4)
     ctx.exhaustive = False
@@ -530,14 +640,21 @@ def search(ctx, pending):
     rng = random.Random(ctx.seed + 77)
     sub = Sub(ctx)
     sub.overlay_root = ctx.overlay_root
-    cases = []
-    for n in range(0, 6):
-        for es in graphs.all_undirected(n):
-            cases += [c for c in cases_for_graph(sub, _mk(n, es), rng, 'all%d' % n, True, None,
+    sub.dist = {}
+
+    def build():
+        cases = []
+        for n in range(0, 6):
+            for es in graphs.all_undirected(n):
+                cases += [c for c in cases_for_graph(sub, _mk(n, es), rng, 'all%d' % n, True, None,
+                                                     ('tri', 'cc', 'core', 'cliques')) if c.spec]
+        for name, a in random_graphs(sub, rng, 150, 6, 30):
+            cases += [c for c in cases_for_graph(sub, a, rng, name, True, [2, 3, 4, 5, 6],
                                                  ('tri', 'cc', 'core', 'cliques')) if c.spec]
-    for name, a in random_graphs(sub, rng, 150, 6, 30):
-        cases += [c for c in cases_for_graph(sub, a, rng, name, True, [2, 3, 4, 5, 6], ('tri', 'cc', 'core', 'cliques'))
-                  if c.spec]
+        return cases
+    cases, crash = in_child(sub, build)
+    if crash:
+        report_crash(sub, crash)
     for c in cases:
         c.run = None
     evaluate(sub, cases)
@@ -552,7 +669,13 @@ def replay(ctx, payload):
         thread_sweep(ctx, [(case.get('name', 'replay'), _from_desc(case['graph']))], reps=5)
         return
     if 'graph' in case:
-        evaluate(ctx, _cases_of_desc(ctx, case))
+        cases, crash = in_child(ctx, lambda: _cases_of_desc(ctx, case))
+        if crash:
+            report_crash(ctx, crash)
+        evaluate(ctx, cases)
         return
     check_prange(ctx)
-    evaluate(ctx, build_cases(ctx))
+    cases, crash = in_child(ctx, lambda: build_cases(ctx))
+    if crash:
+        report_crash(ctx, crash)
+    evaluate(ctx, cases)
